@@ -88,7 +88,12 @@ def checks(d, props=None):
     st = sh("git -C /repo status --porcelain").stdout.strip()
     if st:
         print("WARNING: /repo not clean after undo:", st)
-    json.dump(res, open(os.path.join(d, 'checks.json'), 'w'), indent=1)
+    path = os.path.join(d, 'checks.json')
+    if props and os.path.exists(path):
+        old = json.load(open(path))
+        old.update(res)
+        res = old
+    json.dump(res, open(path, 'w'), indent=1)
     return 0
 
 
